@@ -55,6 +55,12 @@ CORPUS = [
     ("let a = [1, 2]\npush $a 3\na[0] = 9\nlet n = 0\nfor v in $a {\n  n += $v\n}\npop $a\necho $a $n\nlet w = \"ab\"\nfor ch in $w {\n  echo $ch\n}\n",
      [C("SLet", "a", C("EArr", [I(1), I(2)])), C("SPush", "a", I(3)), C("SSetIdx", "a", I(0), I(9)), C("SLet", "n", I(0)), C("SFor", "v", V("a"), [C("SSet", "n", C("Some", C("OAdd")), V("v"))]),
       C("SPop", "a"), C("SEcho", [V("a"), V("n")]), C("SLet", "w", L("ab")), C("SFor", "ch", V("w"), [C("SEcho", [V("ch")])])]),
+    # a name whose block has ended expands to nothing and does not disturb the other interpolations of the literal
+    ("let a = 1\nlet b = 2\nif $a == 1 {\n  let tmp = 9\n  echo \"in ${{tmp}} ${{a}}\"\n}\necho \"out ${{tmp}} a=${{a}} b=${{b}}\"\nlet s = \"x${{tmp}}y${{b}}z\"\necho $s\n",
+     [C("SLet", "a", I(1)), C("SLet", "b", I(2)),
+      C("SIf", [(C("ECmp", C("CEq"), V("a"), I(1)), [C("SLet", "tmp", I(9)), C("SEcho", [C("ELit", [C("PText", "in "), C("PVar", "tmp"), C("PText", " "), C("PVar", "a")])])])], None),
+      C("SEcho", [C("ELit", [C("PText", "out "), C("PVar", "tmp"), C("PText", " a="), C("PVar", "a"), C("PText", " b="), C("PVar", "b")])]),
+      C("SLet", "s", C("ELit", [C("PText", "x"), C("PVar", "tmp"), C("PText", "y"), C("PVar", "b"), C("PText", "z")])), C("SEcho", [V("s")])]),
 ]
 
 
